@@ -63,11 +63,39 @@ fn c39(out: &str) {
     write(out, "join", flow.with_process(&p, "run").generate_embedded("hv_net_flows"));
 }
 
+/// SplitMix64, as in hv_common
+fn next(s: &mut u64) -> u64 {
+    *s = s.wrapping_add(0x9E37_79B9_7F4A_7C15);
+    let mut z = *s;
+    z = (z ^ (z >> 30)).wrapping_mul(0xBF58_476D_1CE4_E5B9);
+    z = (z ^ (z >> 27)).wrapping_mul(0x94D0_49BB_1331_11EB);
+    z ^ (z >> 31)
+}
+
+/// C41: a fixed sample of generated programs goes through the production builder here and
+/// through rustc when the harness crate is compiled ("the generated Rust compiles").
+fn c41(out: &str) {
+    const N: usize = 24;
+    let mut all = String::new();
+    let mut st = 0x4134_1u64;
+    for i in 0..N {
+        let len = 6 + (next(&mut st) % 50) as usize;
+        let tape: Vec<u8> = (0..len).map(|_| (next(&mut st) % 256) as u8).collect();
+        let (flow, p1, p2, _built) = hv_net_flows::c41::make(&tape, false);
+        let code = flow.with_process(&p1, "p1").with_process(&p2, "p2").generate_embedded("hv_net_flows");
+        write(out, &format!("c41_{i}"), code);
+        all.push_str(&format!("pub mod f{i} {{\n    include!(concat!(env!(\"OUT_DIR\"), \"/c41_{i}.rs\"));\n}}\n"));
+    }
+    all.push_str(&format!("pub const SAMPLE: usize = {N};\n"));
+    std::fs::write(format!("{out}/c41_all.rs"), all).unwrap();
+}
+
 fn main() {
     println!("cargo::rerun-if-changed=build.rs");
     let out_dir = std::env::var("OUT_DIR").unwrap();
     let out = out_dir.as_str();
     c39(out);
+    c41(out);
     c35!(out, T0, t0);
     c35!(out, T1, t1);
     c35!(out, T2, t2);
